@@ -418,6 +418,18 @@ SMART_CFGS = [{"smart_sampling": True, "sample_rate": sr, **extra}
                             {"category_sampling_rates": {"permit": 0.3}},
                             {"category_sampling_rates": {"deny": 0.3, "permit_with_obligations": 0.3, "permit": 1.0}},
                             {"category_sampling_rates": {"deny": 7, "permit": -1}}]]
+# the cross product of the sampling-related constructor arguments: smart_sampling (omitted / off / on) x sample_rate (omitted /
+# 0 / in between / 1) x category_sampling_rates (omitted / None / empty / partially given / fully given, with rates 0 and 1 that
+# contradict sample_rate).  Smart sampling is opt-in: with smart_sampling off the logger is in the legacy single-rate mode
+# whatever category_sampling_rates says (Redact.should_drop: `if negb (c_smart c) then gate (c_rate c) u`; init stores the
+# strategy all the same), so rate 0 emits nothing and rate 1 emits every decision there too.
+CROSS_RATES = ["omit", None, {}, {"permit": 0.0}, {"deny": 1.0}, {"deny": 1.0, "permit_with_obligations": 1.0, "permit": 0.0},
+               {"deny": 0, "permit_with_obligations": 0.0, "permit": 1}]
+CROSS_CFGS = [{k: v for k, v in (("smart_sampling", sm), ("sample_rate", sr), ("category_sampling_rates", cr)) if v != "omit"}
+              for sm in ["omit", False, True] for sr in ["omit", 0.0, 0.3, 1.0] for cr in CROSS_RATES]
+CROSS_CFGS_T = [{"smart_sampling": sm, "sample_rate": sr, "category_sampling_rates": cr}     # thorough: falsy / truthy spellings
+                for sm in [0, None, "", 1, "no"] for sr in [0, 1, -1, 2, 0.05] for cr in CROSS_RATES[3:]]
+CROSS_DRAWS = [0.0, 0.3, 0.5, 0.999999]
 BAD_SPECS = [[{"type": "redact_fields", "fields": ["a"]}, "oops"], ["oops"], [None], [{"type": "mask_fields", "fields": 5}],
              [{"type": "redact_fields", "fields": ["b.c"]}, {"type": "redact_fields", "fields": True}, {"type": "redact_fields", "fields": ["a"]}],
              [{"type": "mask_fields", "fields": ["a"]}, 7], [[1, 2]], [{"type": "mask_fields", "fields": "ab"}],
@@ -477,6 +489,13 @@ def gen_log_cases(chk):
                 for asj in ([False, True] if u in (0.0, 0.3) else [bool(len(out) % 2)]):
                     out.append({"kind": "log", "fam": "sampling-grid", "kwargs": {**cfg, "as_json": asj},
                                 "payload": {**df, "env": {"subject": {"id": "u1"}}}, "u": u})
+    # ---- (A') the cross product of the sampling arguments (CROSS_CFGS) x 4 draws x 5 decision classes
+    cross_dec = [dec_fields[0], dec_fields[1], dec_fields[2], dec_fields[3], {}]
+    for cfg in copy.deepcopy(CROSS_CFGS + (CROSS_CFGS_T if chk.tier == "thorough" else [])):
+        for u in CROSS_DRAWS:
+            for df in (dec_fields if chk.tier == "thorough" else cross_dec):
+                out.append({"kind": "log", "fam": "sampling-cross", "kwargs": {**cfg, "as_json": bool(len(out) % 2)},
+                            "payload": {**df, "env": {"subject": {"id": "u1"}}}, "u": u})
     # ---- (B) priority grid, complete
     env0 = {"subject": {"id": "u", "attrs": {"password": TOKEN, "email": "e@x", "n": 1}}, "context": {"ip": "10.0.0.1", "cookies": {"s": "c"}},
             "resource": {"attrs": {"secret": "zz"}}}
@@ -1702,6 +1721,21 @@ def gen_guardlog_cases(chk):
                     req = copy.deepcopy(rng.choice(variants))
                     red = rng.choice(GL_REDACT[:2] + GL_REDACT[5:7]) if rng.random() < 0.6 else rng.choice(GL_REDACT)
                     add("sampling", pol, req, {**copy.deepcopy(cfg), **copy.deepcopy(red)}, token)
+    # ---- (a') decision classes x the cross product of the sampling arguments (the direct family's (A')): above all smart
+    #      sampling off / omitted while category_sampling_rates is supplied (legacy mode: the rates must be ignored)
+    for pol in (GL_DOC_POLICY, GL_SET_POLICY) + ((GL_NESTED_POLICY,) if thorough else ()):
+        for action, mfa in GL_CLASSES:
+            i += 1
+            token = TOKEN + str(i % 7)
+            variants = [gl_decorate(rng, gl_req(action, mfa, rid=rng.choice(["1", "d-7"])), token, rng.choice([1, 2]))[0] for _ in range(2)]
+            for cfg in CROSS_CFGS + (CROSS_CFGS_T if thorough else []):
+                i += 1
+                legacy_with_rates = not cfg.get("smart_sampling") and bool(cfg.get("category_sampling_rates"))
+                if not thorough and i % (4 if legacy_with_rates else 12) != chk.seed % 4:
+                    continue
+                red = rng.choice(GL_REDACT[:2] + GL_REDACT[5:7])
+                add("sampling-cross", pol, copy.deepcopy(rng.choice(variants)), {**copy.deepcopy(cfg), **copy.deepcopy(red)}, token,
+                    u=rng.choice(CROSS_DRAWS))
     # ---- (b) the priority grid (the direct family's (B)) on the request of AuditRedact.ar_example and on a set
     n = 0
     for red in ["omit", None, [], [{"type": "mask_fields", "fields": ["subject.id"]}],
@@ -2209,7 +2243,9 @@ def run(chk):
     chk.rule = ("corpus witnesses first (F13, F14, F21 and minimised mutants); then complete families: every index text of length "
                 "<= 3 (thorough 4) over a 14-letter alphabet against int(); every path of <= 3 segments over 9 (thorough 21) segment "
                 "forms x 11 (15) small objects for _set_by_path; the sampling grid (13 legacy + 24 smart configurations x 10 draws x 7 "
-                "decision shapes), the priority grid (6 redactions x 5 opt-in x in_place x as_json), env shapes, size bounds at "
+                "decision shapes) and the cross product of the sampling arguments (smart_sampling omitted/off/on x sample_rate "
+                "omitted/0/0.3/1 x category_sampling_rates omitted/None/empty/partial/full: 84 configurations x 4 draws x 5 "
+                "decision classes, also under a Guard), the priority grid (6 redactions x 5 opt-in x in_place x as_json), env shapes, size bounds at "
                 "exact size -2..+2 over ASCII/non-ASCII envs, ill-typed specs; then seeded random envs (depth <= 4, secret planted "
                 "under object and list paths in 7 forms, specs over mask/redact/unknown types with noise paths: missing and "
                 "non-object intermediates, indices beyond the list, negative and malformed indices) x in_place x as_json x "
